@@ -394,7 +394,7 @@ func (ex *exec) applyContract(st *State, ct *Contract, fn *types.Func, recv Valu
 	pre := st.clone()
 	callSerial := freshSerial
 	short := ct.Key
-	env := &specEnv{ex: ex, st: st, old: pre, names: names, sigOverride: sig}
+	env := &specEnv{ex: ex, st: st, old: pre, names: names, sigOverride: sig, noLocals: true}
 	aenv := *env
 	aenv.assume = true
 	for _, r := range ct.Requires {
@@ -417,6 +417,16 @@ func (ex *exec) applyContract(st *State, ct *Contract, fn *types.Func, recv Valu
 	// havoc assigns
 	for _, a := range ct.Assigns {
 		ex.havocSpecTarget(st, env, a, call.Pos())
+	}
+	if !ct.HasAssign {
+		// no frame clause: the callee may write everything reachable through its pointer and slice arguments
+		// (a contract that wants its caller to know more must say `assigns ...`; its own frame is then checked)
+		if recv != nil {
+			ex.havocReachable(st, recv, call.Pos())
+		}
+		for _, a := range args {
+			ex.havocReachable(st, a, call.Pos())
+		}
 	}
 	// results
 	var res Tuple
@@ -581,6 +591,37 @@ func markFresh(st *State, v Value) {
 }
 
 // havocSpecTarget havocs the location(s) denoted by an assigns expression.
+// havocReachable: conservative effect of a callee without a frame clause on one argument value.
+func (ex *exec) havocReachable(st *State, v Value, pos token.Pos) {
+	defer func() {
+		if r := recover(); r != nil {
+			if _, ok := r.(unsupported); ok {
+				return // read-only tables and opaque backing stores stay as they are
+			}
+			panic(r)
+		}
+	}()
+	switch t := v.(type) {
+	case *Slice:
+		if t.Base == nil || t.Base.Obj == nil || ex.readonlyObjs[t.Base.Obj] || ex.ptrTables[t.Base.Obj] != nil {
+			return
+		}
+		if arr, ok := st.heap[t.Base.Obj].(*Term); ok && arr.Sort.K == KArr && len(t.Base.Path) == 0 {
+			st.heap[t.Base.Obj] = Fresh(t.Base.Obj.name+"!h", arr.Sort)
+		}
+	case *Ptr:
+		if t.Obj == nil || ex.readonlyObjs[t.Obj] || ex.ptrTables[t.Obj] != nil {
+			return
+		}
+		if _, ok := st.heap[t.Obj].(*LazyRows); ok {
+			return
+		}
+		old := ex.load(st, t, pos)
+		ex.store(st, t, ex.havocValue(st, old, ex.typeAt(t.Obj.T, t.Path), t.Obj.name), pos)
+		ex.bumpGhost(st, t.Obj)
+	}
+}
+
 func (ex *exec) havocSpecTarget(st *State, env *specEnv, a ast.Expr, pos token.Pos) {
 	if id, ok := a.(*ast.Ident); ok {
 		if gd, ok := ex.eng.ghosts[id.Name]; ok && gd.Var {
